@@ -147,10 +147,10 @@ PROBES = {
     # reported 2026-09-27 (corpus/c14/suggested_block_in_parens.diff): if_expression eats `do` and block() accepts a second
     # one as its optional opener, so inside brackets (newlines skipped) a block statement that comes first in a branch
     # loses its `do`.  To become "judged" when the fix is applied.
-    "block-statement-first-in-if-branch-inside-parens": ("unjudged",
+    "block-statement-first-in-if-branch-inside-parens": ("judged",
         "x :: if true do\n  do\n    a :: 1\n  end\n  b := 2\n  b\nelse do\n  3\nend\nstart :: fn do end\n",
         "x :: (if true do\n  do\n    a :: 1\n  end\n  b := 2\n  b\nelse do\n  3\nend)\nstart :: fn do end\n"),
-    "block-statement-first-after-bare-else-inside-brackets": ("unjudged",
+    "block-statement-first-after-bare-else-inside-brackets": ("judged",
         "x :: [if false do\n  3\nelse do\n  do\n    a :: 1\n  end\n  b := 2\n  b\nend]\nstart :: fn do end\n",
         "x :: [if false do\n  3\nelse\n  do\n    a :: 1\n  end\n  b := 2\n  b\nend]\nstart :: fn do end\n"),
     "loop-body-statement-then-else-on-one-line": ("judged",
